@@ -20,7 +20,7 @@ VARIABLES nbuf, nout
 mcVars == <<buf, inQuote, out, typed, nbuf, nout>>
 
 NaiveTerminated(s) == LET t == TrimR(s) IN t # <<>> /\ t[Len(t)] = SEMI
-NaiveSplit(s) == LET P == StmtsAt(s, {i \in 1..Len(s) : s[i] = SEMI})
+NaiveSplit(s) == LET P == StmtsAt(s, SelectSeq([i \in 1..Len(s) |-> i], LAMBDA i : s[i] = SEMI))
                  IN  [k \in 1..Len(P) |-> Trim(P[k])]
 NKey(c) == nbuf' = Append(nbuf, c) /\ UNCHANGED nout
 NEnter == IF Trim(nbuf) = <<>> THEN nbuf' = <<>> /\ UNCHANGED nout
@@ -34,7 +34,7 @@ Complete(b, t) == t # <<>> /\ t[Len(t)] = CR /\ b = <<>>
 
 \* keys still needed before the behaviour can be complete (close the literal, terminate,
 \* press Enter); prefixes that cannot be completed within the bound are not explored
-Needs(b, q, t) == IF q # 0 THEN 3
+Needs(b, q, t) == IF q < 0 THEN 4 ELSE IF q > 0 THEN 3
                   ELSE IF Trim(b) = <<>> THEN (IF t = <<>> \/ t[Len(t)] = CR THEN 0 ELSE 1)
                   ELSE IF Terminated(b) THEN 1 ELSE 2
 
